@@ -82,7 +82,7 @@ def collect_term(t, strings, ints, vs, names):
     if k == "a":
         strings.add(t["n"])
     elif k == "i":
-        ints.add(str(int(t["n"])))
+        ints.add(t["n"] if len(t["n"]) > 4000 else str(int(t["n"])))
     elif k == "v":
         vs.add(names(t["id"]))
     else:
